@@ -1,7 +1,7 @@
 """C09 - Clean reports every stale item, deletes only in clean mode, touches nothing else."""
-import re
+import os, re, shutil, subprocess
 from runner import Prop
-from common import hx, unhx
+from common import hx, unhx, REPO, GOENV
 import gen as G
 
 CLEAN_FIELDS = ["layout", "ofiles", "otests", "writes", "printed", "passed", "failed", "added", "updated", "skipped", "removed"]
@@ -153,6 +153,66 @@ class C09(CleanBase):
             "non-trivial = at least one stale item existed")
     outside_model = "-run filtering (regexp) and the sibling-.go lookup are C08's subject (empty pattern here)"
     trusted = []
+
+    def extra_run(self, tier, seed, workdir):
+        """Black box: Clean inside a REAL `go test` binary, built plainly and with -trimpath (under -trimpath the paths the
+        library records are RELATIVE to the package directory, which the white-box harness - absolute sandbox paths - never
+        shows). Recorded: two live entries, one standalone file; then a test stops making its call (stale entry) and an old
+        *.snap file appears. Report mode must list exactly the stale entry and the old file and remove nothing; clean mode
+        must remove exactly those; the addressed files are never listed."""
+        from C05 import BB_TEST
+        fails, runs = [], 0
+        for trim in (False, True):
+            mod = os.path.join(workdir, "bbclean%d" % trim)
+            os.makedirs(mod, exist_ok=True)
+            open(os.path.join(mod, "go.mod"), "w").write("module bb\n\ngo 1.22\n\nrequire github.com/gkampitakis/go-snaps v0.0.0\n\nreplace github.com/gkampitakis/go-snaps => %s\n" % REPO)
+            shutil.copy(os.path.join(REPO, "go.sum"), os.path.join(mod, "go.sum"))
+            open(os.path.join(mod, "m_test.go"), "w").write(BB_TEST)
+            env = {k: v for k, v in GOENV.items() if k not in ("CI", "UPDATE_SNAPS")}
+            env["NO_COLOR"] = "1"
+            binp = os.path.join(workdir, "bbclean%d.test" % trim)
+            p = subprocess.run(["go", "test", "-c", "-vet=off"] + (["-trimpath"] if trim else []) + ["-o", binp, "."], cwd=mod, env=env,
+                               stdout=subprocess.PIPE, stderr=subprocess.STDOUT, text=True, errors="replace", timeout=900)
+            if p.returncode != 0:
+                return [{"msg": "black-box build failed: " + p.stdout[-800:]}], {}
+            snapdir = os.path.join(mod, "__snapshots__")
+            where = "black box (%s build)" % ("-trimpath" if trim else "plain")
+
+            def run(e):
+                q = subprocess.run([binp, "-test.count=1"], cwd=mod, env=dict(env, **e), stdout=subprocess.PIPE, stderr=subprocess.STDOUT, text=True, errors="replace", timeout=900)
+                img = {}
+                if os.path.isdir(snapdir):
+                    for f in sorted(os.listdir(snapdir)):
+                        img[f] = open(os.path.join(snapdir, f), "rb").read()
+                return q.returncode, q.stdout, img
+            shutil.rmtree(snapdir, ignore_errors=True)
+            rc, out, img = run({"BB_VALUE": "v0", "BB_GONE": "1"})
+            runs += 1
+            if rc != 0 or "m_test.snap" not in img or "TestStand_1.snap" not in img:
+                fails.append({"msg": "%s: recording run: exit=%d files=%s" % (where, rc, sorted(img))})
+                continue
+            open(os.path.join(snapdir, "old_test.snap"), "wb").write(b"\n[TestOld - 1]\nx\n---\n")
+            base = dict(img, **{"old_test.snap": b"\n[TestOld - 1]\nx\n---\n"})
+            # report mode
+            rc, out, img = run({"BB_VALUE": "v0", "BB_GONE": "0"})
+            runs += 1
+            # (what the summary mentions, whatever its layout: the test binary prints nothing else that could name these items)
+            if img != base:
+                fails.append({"msg": "%s: report mode changed the snapshot directory" % where})
+            if "TestGone - 1" not in out or "old_test.snap" not in out:
+                fails.append({"msg": "%s: report mode did not list the stale entry and the old file: %s" % (where, out[-400:])})
+            if "m_test.snap" in out or "TestStand_1.snap" in out or "TestVal - 1" in out:
+                fails.append({"msg": "%s: report mode lists an addressed item as obsolete: %s" % (where, out[-400:])})
+            # clean mode
+            rc, out, img = run({"BB_VALUE": "v0", "BB_GONE": "0", "UPDATE_SNAPS": "clean"})
+            runs += 1
+            ents = [i for i, _ in parse_entries(img.get("m_test.snap", b""))]
+            if "old_test.snap" in img or b"TestGone - 1" in b",".join(ents):
+                fails.append({"msg": "%s: clean mode kept a stale item: files %s entries %s" % (where, sorted(img), ents)})
+            if ents != [b"TestVal - 1"] or img.get("TestStand_1.snap") != base["TestStand_1.snap"]:
+                fails.append({"msg": "%s: clean mode removed or altered an addressed item: files %s entries %s" % (where, sorted(img), ents)})
+            shutil.rmtree(snapdir, ignore_errors=True)
+        return fails, {"black_box_clean_runs": runs, "black_box": "real go test binaries (plain and -trimpath) with TestMain+Clean: report and clean mode on a directory with a stale entry and an old file"}
 
     def gen(self, rng, tier):
         n = 300 if tier == "quick" else 5000
